@@ -5,6 +5,7 @@ PLVE = "torrentfile.utils.PieceLengthValueError"
 
 
 def register(reg):
+    register_more(reg)
     C = reg.contract
 
     # ------------------------------------------------------------------ C12
@@ -50,3 +51,36 @@ def register(reg):
       replay="pure",
       notes="float: size / 2**exp > 1000 is read over exact rationals (q > 1000 implies q >= 1000 + 2^-24, "
             "representable, so rounding cannot cross 1000; valid for size < 2^1000)")
+
+
+def register_more(reg):
+    C = reg.contract
+    # Memo.__call__ (C09): the result is the function evaluated NOW -- nothing cached may be returned
+    C("torrentfile.utils.Memo.__call__",
+      props=["C09"],
+      params={"self": {"cls": "torrentfile.utils.Memo", "fields": {"func": "any", "counter": "int", "cache": "dict"}}, "path": "str"},
+      returns="any",
+      setup=_memo_setup,
+      ensures=[("C09", "result_is_function_evaluated_now", "result == memo_func_now(path)")],
+      raises={"BaseException": {}},
+      notes="self.func is an opaque callable with the ghost value memo_func_now(path) = func(path) in the current file-system "
+            "state; self.cache is arbitrary (havocked history)")
+
+    C("torrentfile.utils.path_size", props=["C12"], params={"path": "any"}, returns="int",
+      ensures=[("C12", "nonneg", "result >= 0")], raises={"BaseException": {}},
+      notes="filelist_total's first component is a sum of file sizes (assumed >= 0 through its contract)")
+    C("torrentfile.utils.path_piece_length", props=["C12"], params={"path": "any"}, returns="int",
+      ensures=[("C12", "auto_choice_range", "is_pow2(result) and 16384 <= result <= 16777216")],
+      raises={"BaseException": {}})
+    C("torrentfile.utils.filelist_total", props=[], params={"pathstring": "any"}, returns="tuple[nat,list]",
+      spec_only=True,
+      ensures=[],
+      raises={"torrentfile.utils.MissingPathError": {}},
+      notes="assumed here (verified under C01/C09): returns (total size, sorted file list)")
+
+
+def _memo_setup(p, env):
+    import z3
+    from pyvc.values import VBox, PV, S
+    f = p.engine.uf("memo_func_now", S, PV)
+    p.ghost["opaque_callable"] = lambda path, args: VBox(f(args[0].t))
